@@ -138,7 +138,9 @@ def _run_unit(name, prop, canary=False, mutate=None, suffix=""):
     fname = f"{name}__{tagp}{'__canary' if canary else ''}{suffix}.rs"
     path = os.path.join(BUILD, fname)
     open(path, "w").write(text)
-    r = run_verus(path)
+    # canary runs need one canary failure per function, not every failing exit: a small
+    # --multiple-errors keeps them fast (30 made the whole-handle_htlc canary take minutes)
+    r = run_verus(path, multiple_errors=(6 if canary else 30))
     out = {"unit": name, "prop": prop, "canary": canary, "file": path, "cmd": r["cmd"],
            "wall_s": round(r["wall"], 2), "failures": [], "undecided": [], "verified": 0, "errors": 0,
            "smt_ms": None, "u": u}
